@@ -57,7 +57,8 @@ def run(prog, chk):
     from props import geomalg as _g
     _g.check(prog, chk, "C11", floor=20)  # the box primitives the constraint algebra is written in
     from props import strops
-    strops.check_for(prog, chk, "C11")  # A14.str-ops: how this property's strings are cut up is a reviewed, frozen inventory
+    strops.check_for(prog, chk, "C11")
+    strops.check_number_formatting(prog, chk)  # results are exact up to the 3-decimal *output* rounding  # A14.str-ops: how this property's strings are cut up is a reviewed, frozen inventory
 
 
 def _arms(owner):
